@@ -379,7 +379,26 @@ static void exec_one(void)
 	hbudget = mc_arg_int("hacts", 1);
 	method = mc_arg_int("method", 0);
 	env_exclude_methods = excl[method];
-	pop = mc_choose(NPOP, MC_CONFIG, "population");
+	{
+		int pl[16], np = 0;
+		const char *a = mc_arg("pops", "");
+		while (*a && np < 16) {
+			char *e;
+			long v = strtol(a, &e, 10), w;
+			if (e == a) break;
+			w = v;
+			if (*e == '-') w = strtol(e + 1, &e, 10);
+			for (; v <= w && np < 16; v++) pl[np++] = v;
+			a = e;
+			if (*a == ',') a++;
+		}
+		if (np)
+			pop = pl[mc_choose(np, MC_CONFIG, "population")];
+		else
+			pop = mc_choose(NPOP, MC_CONFIG, "population");
+		if (pop < 0 || pop >= NPOP)
+			mc_broken("bad population");
+	}
 	for (i = 0; i < NC; i++) {
 		C[i].kind = POP[pop][i];
 		C[i].owner = -1;
